@@ -105,3 +105,39 @@ Definition export_all_c (l : list sim) : result (list siminput) :=
   st <- seq_fold xmod (map (fun s => tb_mod (s_tb s)) l) {| reserved := []; done := [] |} ;;
   traverse (export_one_c (done st)) l.
 End Float.
+
+(* ---- the nearest double, computed (round-half-even): a correctly rounding float() in Coq.
+   a / b > 0 is scaled to units of 2^-1076 (V / b = q + r / b); the spacing 2^s of the doubles around it follows from the bit
+   length of q (never below 2^2 = the subnormal spacing 2^-1074); the mantissa is q / 2^s rounded half-even on the remainders;
+   a mantissa of 2^53 moves to the next binade; beyond E = 971 the result is an infinity. *)
+Definition round_abs_ref (a b : Z) : option (Z * Z) :=
+  let V := a * 2 ^ 1076 in
+  let q := V / b in let r := V mod b in
+  let s := Z.max 2 (Z.log2 q - 52) in
+  let H := 2 ^ (s - 1) in
+  let M0 := q / (2 * H) in let rem := q mod (2 * H) in
+  let up := if rem <? H then false else if (H <? rem) || (0 <? r) then true else Z.odd M0 in
+  let M1 := if up then M0 + 1 else M0 in
+  let Ms := if M1 =? 2 ^ 53 then (2 ^ 52, s + 1) else (M1, s) in
+  if 2047 <? snd Ms then None else Some (fst Ms, snd Ms - 1076).
+(* the same function with one Euclidean division and shifts for the powers of two (what the correspondence run
+   evaluates; equal to round_abs_ref by Proofs/C17RoundProofs.v: round_abs_fast) *)
+Definition round_abs (a b : Z) : option (Z * Z) :=
+  let V := Z.shiftl a 1076 in
+  let qr := Z.div_eucl V b in
+  let q := fst qr in let r := snd qr in
+  let s := Z.max 2 (Z.log2 q - 52) in
+  let H := Z.shiftl 1 (s - 1) in
+  let M0 := Z.shiftr q s in let rem := q - Z.shiftl M0 s in
+  let up := if rem <? H then false else if (H <? rem) || (0 <? r) then true else Z.odd M0 in
+  let M1 := if up then M0 + 1 else M0 in
+  let Ms := if M1 =? 2 ^ 53 then (2 ^ 52, s + 1) else (M1, s) in
+  if 2047 <? snd Ms then None else Some (fst Ms, snd Ms - 1076).
+Definition round_dbl (m e : Z) : dbl :=
+  let ab := scale10 (Z.abs m) e in
+  match round_abs (fst ab) (snd ab) with
+  | Some (M, E) => DFin (m <? 0) M E
+  | None => DInf (m <? 0)
+  end.
+(* float() of a Decimal, as a function *)
+Definition round_dec (d : dec) : dbl := round_dbl (dint d) (dexp d).
